@@ -152,6 +152,9 @@ def configurations(seed):
     cfg.append(('EVAL allowed', 'EVAL', {}, None, b''))
     cfg.append(('eval_return', 'EVAL_RETURN', {'eval_return': True}, None, b''))
     cfg.append(('eval_return off', 'EVAL_RETURN', {}, None, b''))
+    cfg.append(('eval_return False', 'EVAL_RETURN', {'eval_return': False}, None, b''))
+    cfg.append(('eval_return 0', 'EVAL_RETURN', {'eval_return': 0}, None, b''))
+    cfg.append(('eval_return 1', 'EVAL_RETURN', {'eval_return': 1}, None, b''))
     for name in ('GET_MESSAGE', 'CHECK_SIG', 'CHECK_SIG_VERIFY', 'CHECK_MULTISIG', 'SIGN', 'CHECK_TEMPLATE', 'TAPROOT_KEY',
                  'CHECK_TEMPLATE_00', 'CHECK_TEMPLATE_03'):
         cfg.append(('sigext plugin per run ' + name, name, {}, 'run', b''))
